@@ -66,6 +66,7 @@ pub fn min_vertex_cut<I>(edges: I, source: usize, sink: usize)
 
     let vertices: BTreeSet<_> = edges.iter()
         .flat_map(|&(v, w)| [v, w])
+        .chain([source, sink])
         .collect();
 
     let offset = vertices.iter().max().unwrap_or(&0) + 1;
